@@ -78,3 +78,54 @@ CHECKS["C07"] = {
         "a duplicate registration may be rejected by panic or error, or one of the two may be dropped; only both being live under one name is a violation",
     ],
 }
+
+CHECKS["C04"] = {
+    "level": "exploration",
+    "jobs": [
+        J("machine", "c04", "TestRegistryMachine", 3000, 80000, 8, steps=40),
+        J("realstarts", "c04", "TestRealStartHistories", 1500, 40000, 8),
+    ],
+    "assumptions": [
+        "the state machine issues only what the factory's lookup protocol can issue (cache lookup with early references allowed, then create; an exposing creation adds its early factory first); a creation that does not expose itself is never re-entered",
+        "errors of nested creations and of early factories propagate (as in the real factory)",
+    ],
+}
+CHECKS["C03"] = {
+    "level": "exploration",
+    "jobs": [
+        J("random", "c03", "TestRandom", 2000, 50000, 8),
+        J("randompure", "c03", "TestRandomPure", 2000, 50000, 8),
+        J("exh2", "c03", "TestExhaustive2", None, None, 2),
+        J("exh3q", "c03", "TestExhaustive3Quick", None, None, 2, tiers=["quick"]),
+        J("exh3", "c03", "TestExhaustive3", None, None, 16, tiers=["thorough"]),
+        J("known", "c03", "TestKnownRetryAfterRefusedLazyCreation", None, None),
+    ],
+    "assumptions": [
+        "a *T pointer field cannot hold a substitute, so only components consumed through interfaces are wrapped",
+        "failure of start-up is always admissible for this property; the evidence reports the success/failure split",
+    ],
+}
+
+CHECKS["C05"] = {
+    "level": "exploration",
+    "jobs": [
+        J("lifecycle", "c05", "TestLifecycle", 2000, 50000, 8),
+        J("sparse", "c05", "TestLifecycleSparse", 2000, 50000, 8),
+    ],
+    "assumptions": [
+        "'depends back' is computed over the observed injected edges of the run",
+        "observing post-processors are dependency-free (a post-processor with wire fields pulls components into the pre-registration phase)",
+    ],
+}
+
+CHECKS["C09"] = {
+    "level": "fault_enumeration",
+    "jobs": [
+        J("single", "c09", "TestSingleFaults", 40, 1200, 12),
+        J("pairs", "c09", "TestFaultPairs", 12, 300, 12),
+    ],
+    "assumptions": [
+        "a fault 'fired' when the instrumented callback actually returned its error (recorded by the harness); structural faults (provider removed, key removed) are judged by the reference model",
+        "hang = exceeding the deterministic creation budget",
+    ],
+}
